@@ -961,7 +961,9 @@ fn run_case(sink: &mut Sink, csvs: &[String], texts: &[String], exacts: &[String
         sink.tag("nul_in_text");
     }
     let nontrivial = total_hits >= 2 && (has_prefix_pair || max_homo > 1 || csvs.len() > 1);
-    let id = sink.case(term, d, nontrivial);
+    // keys of more than a thousand bytes: the certificate's enumerator is quadratic in the depth, the case is checked by the
+    // CSV scan only (the reader theorem is unbounded in the key length; the fact lookup_input_untruncated ties it)
+    let id = if fuel > 600 { sink.case_rust_only(d, nontrivial) } else { sink.case(term, d, nontrivial) };
     let bad = match (bad, CLI_FILES.with(|c| c.borrow().clone())) {
         (Some(b), Some(files)) => Some(format!("dictionary written by `sudachi build {}` (word number = position of the row in the files as given): {}", files.iter().map(|f| f.0.clone()).collect::<Vec<_>>().join(" "), b)),
         (b, _) => b,
@@ -1129,6 +1131,18 @@ pub fn run(args: &Args) {
         let exacts: Vec<String> = ["nhk", "NHK", "アイアイウ", "アイウ", "ab", "a", "京", "京都府", "別物"].iter().map(|s| s.to_string()).collect();
         run_case(&mut sink, &[csv], &texts, &exacts, true, false);
         sink.tag("directed_headword_differs_from_key");
+    }
+    // directed: a key of 1035 bytes ("ん" x 345) with prefixes of 3, 1023, 1026 and 1032 bytes: lookup sees the whole rest of the
+    // text, there is no maximum key length
+    {
+        let rows: Vec<Row> = [345usize, 1, 341, 342, 344].iter().enumerate().map(|(i, n)| Row { surface: "ん".repeat(*n), left: 1 + i as i16 }).collect();
+        let csv: String = rows.iter().map(|r| format!("{},{},{},100,{},{},*,*,*,A,*,*,*,*\n", r.surface, r.left, r.left, r.surface, POS[0])).collect();
+        let texts = vec![format!("{}x", "ん".repeat(346)), format!("a{}", "ん".repeat(345))];
+        let exacts = vec!["ん".repeat(345), "ん".repeat(344), "ん".repeat(343)];
+        run_case(&mut sink, &[csv.clone()], &texts, &exacts, true, false);
+        let sys: String = format!("ん,1,1,100,ん,{},*,*,*,A,*,*,*,*\n", POS[1]);
+        run_case(&mut sink, &[sys, csv], &texts[..1].to_vec(), &exacts[..1].to_vec(), true, false);
+        sink.tag("directed_key_longer_than_1024_bytes");
     }
     // directed: 127 homographs (the maximum a table group can hold), and 128 (must be rejected, not truncated)
     for n in [127usize, 128] {
